@@ -519,7 +519,7 @@ def _hook_name_parts(ctx, cls, hook, em, ev):
     for a in parts:
         if not isinstance(a, ast.Name):
             continue
-        defs = [s for s in flow.stmts_of(fn, ast.Assign) if dotted(s.targets[0]) == a.id]
+        defs = _defs_closure(fn, a.id)
         for k, l in enumerate(loops):
             # x<k> = component 0 of the loop element
             comp0 = None
@@ -532,7 +532,7 @@ def _hook_name_parts(ctx, cls, hook, em, ev):
                 ids.append((k, a.id, good, [src(d.value) for d in fb]))
     # the name starts with the function's own id, the sample ids come last
     first = parts[0] if parts else None
-    fdefs = [s0 for s0 in flow.stmts_of(fn, ast.Assign) if isinstance(first, ast.Name) and dotted(s0.targets[0]) == first.id]
+    fdefs = _defs_closure(fn, first.id) if isinstance(first, ast.Name) else []
     okf = isinstance(first, ast.Name) and any("self.get_name()" in src(d.value) for d in fdefs)
     id_names = [nm for _, nm, _, _ in ids]
     tail = [a.id for a in parts[-len(id_names):] if isinstance(a, ast.Name)] if id_names else []
